@@ -54,9 +54,11 @@ theorem setCell_spec (n : Nat) (m : List (List Int)) (hm : SquareI n m) (i j : N
           exact List.getElem_mem _
         exact hm.2 _ hmem
       simp only [if_true, true_and]
+      have hjl : j < (m.getD i []).length := by rw [hlen]; exact hj
+      generalize m.getD i [] = row at hjl ⊢
       simp only [List.getD_eq_getElem?_getD, List.getElem?_set]
       by_cases hjb : j = b
-      · subst hjb; simp [hlen, hj]
+      · subst hjb; simp [hjl]
       · have : ¬ b = j := fun e => hjb e.symm
         simp [hjb, this]
     · have : ¬ a = i := fun e => hia e.symm
@@ -85,15 +87,16 @@ theorem foldl_setCell (n : Nat) (es : List Edge) (w : Edge → Int) (hes : ∀ e
 /-- the nested loop of `getWeightMatrix` when every label lookup succeeds -/
 theorem wm_fold (g : G Int) (lab : Nat → Nat → Res Int) (w : Edge → Int) (is : List Nat)
     (hok : ∀ i ∈ is, ∀ j ∈ g.nb i, lab i j = .ok (w (i, j))) (mat : List (List Int)) :
-    is.foldl (fun r i => (g.nb i).foldl (fun r j => r.bind (fun mat => (lab i j).map (fun x => setCell mat i j x))) r) (.ok mat)
-      = .ok ((is.flatMap (fun i => (g.nb i).map (fun j => (i, j)))).foldl (fun m e => setCell m e.1 e.2 (w e)) mat) := by
+    is.foldl (fun (r : Res (List (List Int))) i => (g.nb i).foldl (fun (r : Res (List (List Int))) j =>
+        r.bind (fun mat => (lab i j).map (fun x => setCell mat i j x))) r) (Res.ok mat)
+      = Res.ok ((is.flatMap (fun i => (g.nb i).map (fun j => (i, j)))).foldl (fun m e => setCell m e.1 e.2 (w e)) mat) := by
   induction is generalizing mat with
   | nil => rfl
   | cons i is ih =>
     simp only [List.foldl_cons, List.flatMap_cons, List.foldl_append]
     have hinner : ∀ (js : List Nat) (mat : List (List Int)), (∀ j ∈ js, lab i j = .ok (w (i, j))) →
-        js.foldl (fun r j => r.bind (fun mat => (lab i j).map (fun x => setCell mat i j x))) (.ok mat)
-          = .ok ((js.map (fun j => (i, j))).foldl (fun m e => setCell m e.1 e.2 (w e)) mat) := by
+        js.foldl (fun (r : Res (List (List Int))) j => r.bind (fun mat => (lab i j).map (fun x => setCell mat i j x))) (Res.ok mat)
+          = Res.ok ((js.map (fun j => (i, j))).foldl (fun m e => setCell m e.1 e.2 (w e)) mat) := by
       intro js
       induction js with
       | nil => intro mat _; rfl
